@@ -68,6 +68,14 @@ pub struct GatherPlan {
     /// (summaries, explicit timestamps incl. an explicitly set zero, arbitrary strings and floats)
     #[serde(default)]
     pub custom: Vec<PFamily>,
+    /// fault injection: before each replica gathers, the same thread scrapes ANOTHER registry that
+    /// holds metrics with this plan's names (other kinds, other values) and a PullingGauge whose
+    /// callback panics; the aborted scrape must leave nothing behind for the replica's own gather()
+    #[serde(default)]
+    pub poison: bool,
+    /// the custom collector leaves the type of its counter families unset (the default type applies)
+    #[serde(default)]
+    pub custom_type_unset: bool,
 }
 
 const BOUNDS: [f64; 2] = [4.0, 64.0];
@@ -181,7 +189,7 @@ pub fn gen_plan(seed: u64, mixed_kinds: bool) -> GatherPlan {
             prelude.push(t);
         }
     }
-    GatherPlan { env, prefix, common, metrics, orders, hash_seeds, concurrent_gather: focus || r.chance(30), prelude, custom: vec![] }
+    GatherPlan { env, prefix, common, metrics, orders, hash_seeds, concurrent_gather: focus || r.chance(30), prelude, custom: vec![], poison: r.chance(15), custom_type_unset: false }
 }
 
 fn hist_model(v: u32) -> compat::PHist {
@@ -331,14 +339,15 @@ fn register(reg: &Registry, b: &Built) -> std::result::Result<(), String> {
 pub struct CustomCollector {
     descs: Vec<prometheus::core::Desc>,
     fams: Vec<PFamily>,
+    type_unset: bool,
 }
 impl CustomCollector {
-    pub fn new(fams: &[PFamily]) -> std::result::Result<CustomCollector, String> {
+    pub fn new(fams: &[PFamily], type_unset: bool) -> std::result::Result<CustomCollector, String> {
         let mut descs = vec![];
         for f in fams {
             descs.push(prometheus::core::Desc::new(f.name.clone().unwrap_or_default(), "custom".into(), vec![], HashMap::new()).map_err(|e| e.to_string())?);
         }
-        Ok(CustomCollector { descs, fams: fams.to_vec() })
+        Ok(CustomCollector { descs, fams: fams.to_vec(), type_unset })
     }
 }
 impl prometheus::core::Collector for CustomCollector {
@@ -346,7 +355,22 @@ impl prometheus::core::Collector for CustomCollector {
         self.descs.iter().collect()
     }
     fn collect(&self) -> Vec<proto::MetricFamily> {
-        self.fams.iter().map(compat::to_proto).collect()
+        self.fams
+            .iter()
+            .map(|f| {
+                let mf = compat::to_proto(f);
+                if self.type_unset && f.typ == PType::Counter {
+                    // as a collector written by hand may do: name, help and samples, no set_field_type
+                    let mut bare = proto::MetricFamily::default();
+                    bare.set_name(mf.name().to_string());
+                    bare.set_help(mf.help().to_string());
+                    bare.set_metric(mf.get_metric().to_vec());
+                    bare
+                } else {
+                    mf
+                }
+            })
+            .collect()
     }
 }
 
@@ -442,7 +466,7 @@ pub fn run_replicas(plan: &GatherPlan, mode: Mode) -> (crate::engine::RunResult,
                 }
             }
             if !plan.custom.is_empty() {
-                match CustomCollector::new(&plan.custom) {
+                match CustomCollector::new(&plan.custom, plan.custom_type_unset) {
                     Ok(c) => {
                         if let Err(e) = reg.register(Box::new(c)) {
                             errors.push(format!("register custom collector: {}", e));
@@ -450,6 +474,32 @@ pub fn run_replicas(plan: &GatherPlan, mode: Mode) -> (crate::engine::RunResult,
                     }
                     Err(e) => errors.push(format!("custom collector: {}", e)),
                 }
+            }
+            if plan.poison {
+                let other = Registry::new();
+                for (j, m) in plan.metrics.iter().take(3).enumerate() {
+                    // same raw name, a kind the plan does not use for it, a value nobody else has
+                    if matches!(m.kind, MK::Gauge | MK::IntGauge | MK::Pulling | MK::IntGaugeVec) {
+                        if let Ok(c) = IntCounter::with_opts(Opts::new(m.name.clone(), "stale")) {
+                            c.inc_by(7_700_000 + j as u64);
+                            let _ = other.register(Box::new(c));
+                        }
+                    } else if let Ok(g) = IntGauge::with_opts(Opts::new(m.name.clone(), "stale")) {
+                        g.set(7_700_000 + j as i64);
+                        let _ = other.register(Box::new(g));
+                    }
+                }
+                if let Ok(g) = IntGauge::new("zz_stale", "stale") {
+                    g.set(7_799_999);
+                    let _ = other.register(Box::new(g));
+                }
+                if let Ok(p) = PullingGauge::new("zz_poison", "panics", Box::new(|| panic!("injected: user callback fails during a scrape"))) {
+                    let _ = other.register(Box::new(p));
+                }
+                if crate::seams::catch(|| other.gather()).is_ok() {
+                    errors.push("the poisoned scrape did not panic".to_string());
+                }
+                keep.push(other);
             }
             let mfs = reg.gather();
             let fams = compat::families_of(&mfs);
